@@ -524,10 +524,16 @@ func (t *TaintSpec) Bounded(p *Prog, fn *ssa.Function, s Sink) SinkVerdict {
 				return nil
 			})
 			bounded = !flows && per[0] > 0
+			if bounded && !t.pureExprOf(s.Val, leaf) {
+				// the operand is not a plain expression of the leaf (it went through a memory
+				// cell or a call): the flow cannot be followed, so every path to the sink has
+				// to pass a bound edge
+				bounded = ReachInstrFrom(start, s.Instr, cut, nil) == nil
+			}
 		} else {
 			reach := ReachInstrFrom(start, s.Instr, cut, nil)
 			bounded = reach == nil && per[0] > 0
-			if !bounded && leafIsParam && per[0] > 0 {
+			if !bounded && leafIsParam && per[0] > 0 && t.pureExprOf(s.Val, leaf) {
 				// the sink is reachable, but the parameter's value may arrive there only
 				// over bound edges (mtu := int(x); if x > Max { mtu = Max }; return mtu)
 				flows := FlowPath(s.Val, s.Instr, func(x ssa.Value) bool { return x == leaf }, cut, func(x ssa.Value) []ssa.Value {
@@ -691,4 +697,56 @@ func (t *TaintSpec) boundedNoCallers(p *Prog, fn *ssa.Function, s Sink) SinkVerd
 	t.noCallers = true
 	defer func() { t.noCallers = false }()
 	return t.Bounded(p, fn, s)
+}
+
+// pureExprOf: as far as the leaf's value is concerned, v is built by phis, arithmetic, numeric
+// conversions and min/max only (other terminals do not carry the leaf). The value-flow refinement for parameters may be used only
+// then: a flow that passes through a memory cell (r.pos += l; … r.buf[p:r.pos]) or a call
+// cannot be followed by FlowPath, and "not followed" must not be read as "does not flow".
+func (t *TaintSpec) pureExprOf(v, leaf ssa.Value) bool {
+	seen := map[ssa.Value]bool{}
+	var walk func(x ssa.Value) bool
+	walk = func(x ssa.Value) bool {
+		x = Strip(x)
+		if seen[x] {
+			return true
+		}
+		seen[x] = true
+		if x == leaf {
+			return true
+		}
+		switch y := x.(type) {
+		case *ssa.Parameter, *ssa.Const:
+			return true
+		case *ssa.Phi:
+			for _, e := range y.Edges {
+				if !walk(e) {
+					return false
+				}
+			}
+			return true
+		case *ssa.BinOp:
+			return walk(y.X) && walk(y.Y)
+		case *ssa.Convert:
+			return walk(y.X)
+		case *ssa.Call:
+			if b, ok := y.Call.Value.(*ssa.Builtin); ok && (b.Name() == "min" || b.Name() == "max") {
+				for _, a := range y.Call.Args {
+					if !walk(a) {
+						return false
+					}
+				}
+				return true
+			}
+		}
+		// any other terminal (a load, a call result): harmless unless the leaf's value
+		// arrives through it — then the flow goes where FlowPath cannot follow
+		for _, l := range t.taintedLeaves(x) {
+			if l == leaf {
+				return false
+			}
+		}
+		return true
+	}
+	return walk(v)
 }
